@@ -35,9 +35,17 @@ type params struct {
 	F      int
 	P      int
 	Store  string // default | payload
+	Narrow bool   // deviations only in the ack-wait path (withAckTimeoutCh, readResultLoop, readAckLoop): affordable with two deviations
+	Silent bool   // the failure is a broker that goes silent (message dropped, nothing answered any more): the keep-alive detects the outage
 }
 
 func (p params) name() string {
+	if p.Narrow {
+		return fmt.Sprintf("%s/%s/F%d/P%d/%s/ackwait", p.Policy, strings.Join(p.Ops, ","), p.F, p.P, p.Store)
+	}
+	if p.Silent {
+		return fmt.Sprintf("%s/%s/F%d/P%d/%s/silent", p.Policy, strings.Join(p.Ops, ","), p.F, p.P, p.Store)
+	}
 	return fmt.Sprintf("%s/%s/F%d/P%d/%s", p.Policy, strings.Join(p.Ops, ","), p.F, p.P, p.Store)
 }
 
@@ -59,6 +67,10 @@ func scenarios(tier string) []vlib.Scenario {
 	add(params{Policy: "immediate", Ops: []string{"wA1", "wB1"}, F: 2, Store: "default"})
 	add(params{Policy: "none", Ops: []string{"wA1", "F", "wB1", "F"}, F: 2, Store: "default"})
 	add(params{Policy: "immediate", Ops: []string{"wA1", "wB1"}, F: 1, P: 1, Store: "default"})
+	// the run context is cancelled before the ack channels are closed (one stall) and the ack wait then takes either select case
+	// outages detected by the keep-alive (the broker goes silent) instead of by a read error
+	add(params{Policy: "immediate", Ops: []string{"wA1", "wB1"}, F: 1, P: 0, Store: "default", Silent: true})
+	add(params{Policy: "immediate", Ops: []string{"wA1", "wB1"}, F: 1, P: 1, Store: "default", Silent: true})
 	if tier == "thorough" {
 		for i, h := range hs {
 			h.F, h.Store = 2, "default"
@@ -82,6 +94,9 @@ func config(sc vlib.Scenario, tier string) vsched.Config {
 	cfg.Budget[vsched.BudP] = p.P
 	cfg.Budget[vsched.BudF] = p.F
 	cfg.Scope = func(site string) bool {
+		if p.Narrow {
+			return strings.Contains(site, "withAckTimeoutCh") || strings.Contains(site, "readResultLoop") || strings.Contains(site, "readAckLoop") || strings.Contains(site, "ackOrDone")
+		}
 		for _, s := range []string{"sendChunkAndWaitAck", "withAckTimeoutCh", "processResult", "readResultLoop", "(*Upstream).run", "(*Upstream).resume", "(*Upstream).flush"} {
 			if strings.Contains(site, s) {
 				return true
@@ -123,6 +138,9 @@ func (w *world) script() *sim.Script {
 	s := &sim.Script{}
 	w.rxn = map[string]int{}
 	s.Fault = func(c *sim.BConn, dir string, m message.Message) sim.FaultKind {
+		if w.p.Silent && c.Silent {
+			return sim.FaultDrop // a black hole from the failure on: nothing is processed, nothing answered
+		}
 		interesting := false
 		switch m.(type) {
 		case *message.UpstreamChunk, *message.UpstreamResumeRequest, *message.UpstreamCloseRequest:
@@ -143,6 +161,10 @@ func (w *world) script() *sim.Script {
 			w.cuts++
 			for _, u := range w.b.Ups {
 				u.Held = nil // acks waiting on the dead connection are lost with it
+			}
+			if w.p.Silent {
+				c.Silent = true
+				return sim.FaultDrop
 			}
 			return sim.FaultCut
 		}
